@@ -67,7 +67,7 @@ theorem mem_subst1' (a b : Char) (s : List Char) (x : Char) (h : x ∈ Proofs.Fl
 the text then blanks for a literal, blanks then a text without blanks for a number, a text
 starting in the first column for a date. -/
 theorem shape_dom (f : Field) (v : Val) (t : List Char)
-    (h : Spec.C01.fieldInDomain f v = true) (hflt : FloatFE f v)
+    (h : Spec.C01.fieldInDomain f v = true) (hflt : FloatFB f v)
     (ht : renderText f v = .ok t) (htl : t.length = f.size) : shapeOk f.kind v t f.size = true := by
   have hdom := h
   simp only [Spec.C01.fieldInDomain, Bool.and_eq_true, decide_eq_true_eq] at hdom
@@ -237,11 +237,11 @@ theorem shape_dom (f : Field) (v : Val) (t : List Char)
       | fin neg m e => simp [Spec.C02.typeOk] at hty
 
 /-- **Single field write, full statement, for every value of the decidable domain of C01** —
-missing values, literals, integers, dates, and floats in either notation (`FloatFE`): the
+missing values, literals, integers, dates, and floats in either notation (`FloatFB`): the
 line comes out as long as the longer of the target and the field end, every position outside
 the span is the (blank-padded) target's, and the span holds the value in the kind's shape. -/
 theorem field_write_dom (f : Field) (v : Val) (line : List Char)
-    (h : Spec.C01.fieldInDomain f v = true) (hflt : FloatFE f v) :
+    (h : Spec.C01.fieldInDomain f v = true) (hflt : FloatFB f v) :
     ∃ out, f.writeText v line = .ok out ∧ holdsField f v line out = true := by
   have hdom := h
   simp only [Spec.C01.fieldInDomain, Bool.and_eq_true, decide_eq_true_eq] at hdom
@@ -250,12 +250,12 @@ theorem field_write_dom (f : Field) (v : Val) (line : List Char)
   exact holdsField_of_shape f v line t hgeo htl (shape_dom f v t h hflt ht htl)
 
 /-- **A whole positional line, full statement, from the decidable domain of C01**: for every
-layout and value list admitted by `Spec.C01.inDomain` (floats as in `FloatFE`) the write
+layout and value list admitted by `Spec.C01.inDomain` (floats as in `FloatFB`) the write
 succeeds, the line is exactly as long as the furthest field end plus one newline, ends in that
 newline, every span holds its value in the kind's shape, and every column outside the fields
 is blank. -/
 theorem line_write_dom (fs : List Field) (vs : List Val) (h : Spec.C01.inDomain fs vs = true)
-    (hflt : ∀ fv ∈ fs.zip vs, FloatFE fv.1 fv.2) :
+    (hflt : ∀ fv ∈ fs.zip vs, FloatFB fv.1 fv.2) :
     ∃ w, writePos fs vs = .ok w ∧ holdsLine fs vs w = true := by
   have hd := h
   simp only [Spec.C01.inDomain, Bool.and_eq_true, beq_iff_eq, List.all_eq_true] at hd
@@ -295,7 +295,7 @@ theorem line_write_dom (fs : List Field) (vs : List Val) (h : Spec.C01.inDomain 
 example :
     let fs := [Field.mk' .int 5 1, Field.mk' (.flt 3 'E' ['.']) 12 8, Field.mk' (.date ["%d/%m/%Y".toList]) 10 21]
     let vs := [Val.int (-42), Val.dbl (.fin false 5629274354231751 (-49)), Val.date ⟨2024, 2, 29, 0, 0, 0, 0⟩]
-    Spec.C01.inDomain fs vs = true ∧ (∀ fv ∈ fs.zip vs, FloatFE fv.1 fv.2) ∧
+    Spec.C01.inDomain fs vs = true ∧ (∀ fv ∈ fs.zip vs, FloatFB fv.1 fv.2) ∧
     writePos fs vs = .ok "   -42     1.000E+01 29/02/2024\n".toList := by
   refine ⟨by decide +kernel, ?_, by decide +kernel⟩
   intro fv hfv
@@ -305,7 +305,7 @@ example :
   · intro dec fmt sep hk
     simp only [Field.mk', Kind.flt.injEq] at hk
     obtain ⟨rfl, rfl, rfl⟩ := hk
-    exact Or.inr (Or.inr ⟨Or.inl rfl, false, _, _, rfl, Or.inl (Proofs.FloatE.wfE_of_wfn _ _ _ ⟨by decide, by decide, by decide, by decide⟩ (by decide))⟩)
+    exact Or.inr (Or.inr ⟨Or.inl rfl, false, _, _, rfl, Or.inl (Proofs.FloatE.wfB_of_wfE _ _ _ (Proofs.FloatE.wfE_of_wfn _ _ _ ⟨by decide, by decide, by decide, by decide⟩ (by decide)))⟩)
   · intro dec fmt sep hk; simp [Field.mk'] at hk
 
 end Props.C02
